@@ -2027,6 +2027,32 @@ fn gen_post_case(rng: &mut Rng, idx: usize) -> PostCase {
     PostCase { label: format!("post-gen-{idx}"), names, rename, production: rng.chance(7, 8) }
 }
 
+/// glyph names of a version 2 post table, as bytes (standard names for indices below 258)
+fn post_names_by_hand(font: &[u8], n: usize) -> Option<Vec<Vec<u8>>> {
+    let p = sfnt::table(font, b"post")?;
+    if be32(p, 0)? != 0x00020000 {
+        return None;
+    }
+    let ng = be16(p, 32)? as usize;
+    let mut strings: Vec<Vec<u8>> = Vec::new();
+    let mut q = 34 + 2 * ng;
+    while q < p.len() {
+        let l = p[q] as usize;
+        strings.push(p.get(q + 1..q + 1 + l)?.to_vec());
+        q += 1 + l;
+    }
+    let mut out = Vec::new();
+    for g in 0..n {
+        let idx = be16(p, 34 + 2 * g)? as usize;
+        out.push(if idx < 258 {
+            write_fonts::read::tables::post::DEFAULT_GLYPH_NAMES[idx].as_bytes().to_vec()
+        } else {
+            strings.get(idx - 258)?.clone()
+        });
+    }
+    Some(out)
+}
+
 fn run_post_case(cx: &mut Ctx, pc: &PostCase, outcomes: &mut BTreeMap<String, usize>, notes: &mut Vec<String>) {
     use fontir::orchestration::Flags;
     let mut glyphs = vec![simple(".notdef", 500.0, 0)];
@@ -2052,9 +2078,12 @@ fn run_post_case(cx: &mut Ctx, pc: &PostCase, outcomes: &mut BTreeMap<String, us
         Outcome::Font(b) => {
             *outcomes.entry("post-names:font".into()).or_default() += 1;
             evaluate(cx, &pc.label, "post-names", &b, &[], src.clone());
-            let names = FontRef::new(&b).ok().and_then(|f| f.post().ok()).map(|p| {
-                (0..order.len()).map(|g| p.glyph_name(write_fonts::types::GlyphId16::new(g as u16)).map(|s| s.as_bytes().to_vec()).unwrap_or_else(|| vec![0])).collect::<Vec<_>>()
-            });
+            // read the names by hand: read-fonts refuses a Pascal string that is not ASCII, fontc
+            // writes the UTF-8 bytes of a source name as they are when production names are off
+            let names = post_names_by_hand(&b, order.len());
+            if names.as_ref().map(|v| v.iter().any(|n| !n.is_ascii())).unwrap_or(false) {
+                *outcomes.entry("post-names:font-with-non-ascii-post-name".into()).or_default() += 1;
+            }
             Some(Some(names.unwrap_or_default()))
         }
         Outcome::Error(e) => {
@@ -2350,11 +2379,23 @@ fn main() {
     if let Some(i) = args.iter().position(|a| a == "--file") {
         let b = std::fs::read(&args[i + 1]).expect("read font");
         evaluate(&mut cx, &args[i + 1], "file", &b, &[], json!({}));
+        if let Some(p) = FontRef::new(&b).ok().and_then(|f| f.post().ok()) {
+            for g in 0..p.num_names() {
+                eprintln!("post name {g}: {:?}", p.glyph_name(write_fonts::types::GlyphId16::new(g as u16)).map(|s| (s.len(), s.chars().take(12).collect::<String>())));
+            }
+            if let Some(sd) = p.string_data() {
+                for (k, s) in sd.iter().enumerate() {
+                    eprintln!("string {k}: {:?}", s.map(|s| s.as_str().len()));
+                }
+            }
+        }
         return;
     }
 
+    // debugging aid: C05_ONLY_POST=1 runs only the post-name stream (same PRNG path)
+    let only_post = std::env::var("C05_ONLY_POST").is_ok();
     // T: test data (phase of the stride from the seed, so different seeds cover different files)
-    let sources = testdata_sources();
+    let sources = if only_post { Vec::new() } else { testdata_sources() };
     let phase = (seed as usize) % tstride;
     let mut tcount = 0usize;
     for (i, p) in sources.iter().enumerate() {
@@ -2380,12 +2421,14 @@ fn main() {
     }
     cx.emit_coq = true;
     // L, P, G
-    for c in limit_cases(big).iter().chain(probes().iter()) {
+    for c in limit_cases(big).iter().chain(probes().iter()).filter(|_| !only_post) {
         run_case(&mut cx, c, &mut outcomes, &mut notes);
     }
     for i in 0..n {
         let c = gen_case(&mut rng, i);
-        run_case(&mut cx, &c, &mut outcomes, &mut notes);
+        if !only_post {
+            run_case(&mut cx, &c, &mut outcomes, &mut notes);
+        }
     }
     // post names: fixed probes, then generated
     for pc in post_probes() {
